@@ -16,7 +16,7 @@ import numpy as np
 from .. import models
 from ..core import RunResult, adigest, mix
 from ..driver import pristine_library_state
-from .hist_common import SAME, TAU, quiet, with_entropy
+from .hist_common import SAME, TAU, contain, draw_container, quiet, with_entropy
 from .hist_common import call_value as _call_value
 from .pool_common import maybe_integer_dtype, symmetric_game
 
@@ -29,7 +29,7 @@ NAME = "B"
 PROPERTY = "C07"
 RUNS = {"quick": 160, "thorough": 4000}
 RUN_WALL_CAP = 240.0
-REQUIRED_PROBES = {"quick": ["three_distinct_methods", "method_repeated", "lower_bound_obtained", "two_lower_bounds_different_entropy", "npa_obtained", "reps2_game", "bcs_game", "unequal_alphabets", "value_strictly_inside", "two_objects_same_shape"], "thorough": ["three_distinct_methods", "method_repeated", "lower_bound_obtained", "two_lower_bounds_different_entropy", "npa_obtained", "npa2_obtained", "reps2_game", "bcs_game", "unequal_alphabets", "value_strictly_inside", "two_objects_same_shape"]}
+REQUIRED_PROBES = {"quick": ["other_container", "three_distinct_methods", "method_repeated", "lower_bound_obtained", "two_lower_bounds_different_entropy", "npa_obtained", "reps2_game", "bcs_game", "unequal_alphabets", "value_strictly_inside", "two_objects_same_shape"], "thorough": ["three_distinct_methods", "method_repeated", "lower_bound_obtained", "two_lower_bounds_different_entropy", "npa_obtained", "npa2_obtained", "reps2_game", "bcs_game", "unequal_alphabets", "value_strictly_inside", "two_objects_same_shape"]}
 COMPONENTS = {"real": ["toqito.nonlocal_games.NonlocalGame (constructor, from_bcs_game, classical_value, nonsignaling_value, commuting_measurement_value_upper_bound, quantum_value_lower_bound)", "toqito.helper.npa_constraints / update_odometer", "toqito.matrix_ops.tensor", "toqito.rand.random_povm", "cvxpy + SCS/Clarabel"], "stub": ["OS entropy for the see-saw start (numpy.random.bit_generator.randbits -> choice source)"]}
 RULE = ("one run = one or two game objects of the same shape and different contents (1..3 answers x 1..3 questions per player, unequal allowed; reps 2 for <=2x2x2x2; or from_bcs_game with 1..3 constraints over 2..3 variables) and 3..8 value-method calls "
         "in seeded order with repetition (classical, non-signaling, NPA level 1 / '1+ab' / 2, see-saw lower bound under seeded entropy); non-trivial = >=2 distinct methods, at least one repeated, "
@@ -212,13 +212,17 @@ def make_subject(M, res, kind, gs, like=None):
         else:
             sub.base_prob, sub.base_pred, sub.meta = draw_tensor_game(gs, like=like)
         sub.exp_prob, sub.exp_pred = models.product_game(sub.base_prob, sub.base_pred, sub.reps)
+        sub.forms = [draw_container(gs), draw_container(gs)]
+        if sub.forms != ["array", "array"]:
+            sub.meta["containers"] = sub.forms
+            res.probe("other_container")
 
     def build():
         """Fresh object from fresh copies of the generated data."""
         if kind == "bcs":
             cons = [c.copy() for c in sub.base_cons]
             return M.NonlocalGame.from_bcs_game(cons, 1), cons
-        p, v = sub.base_prob.copy(), sub.base_pred.copy()
+        p, v = contain(sub.base_prob, sub.forms[0]), contain(sub.base_pred, sub.forms[1])
         return M.NonlocalGame(p, v, sub.reps), (p, v)
 
     sub.build = build
